@@ -41,13 +41,16 @@ PROJECT_NAME = "Proj"
 # name -> kind tree; ids used by the spec are the ranks of the names under sorted(Path) among siblings
 ZOPE_SRC = (
     '"""Module Ma: differs from ma only in the case of a letter; zope interfaces inherited from ONE base;\n'
+    'reStructuredText, with a consolidated field written as prose (it cannot be split: shown as a field of its own);\n'
     'no __all__: what `from .Ma import *` gives is what Ma defines followed by what it merely imports."""\n'
+    '__docformat__ = "restructuredtext"\n'
     'from zope.interface import Interface, implementer\nfrom .ma import A, A2, A3\n'
     'class IAlpha(Interface):\n    "Alpha."\n    def run():\n        "Run in the way IAlpha wants it."\n'
     'class IBeta(Interface):\n    "Beta."\n    def run():\n        "Run in the way IBeta wants it."\n'
     'class IGamma(Interface):\n    "Gamma."\n    def run():\n        "Run in the way IGamma wants it."\n'
     '@implementer(IAlpha, IBeta, IGamma)\nclass ZBase:\n    "Declares the interfaces."\n'
-    'class ZChild(ZBase):\n    "Inherits the interfaces from L{ZBase}."\n    def run(self):\n        pass\n')
+    'class ZChild(ZBase):\n    "Inherits the interfaces from `ZBase`."\n    def run(self):\n        pass\n'
+    'def cfield(x):\n    """Consolidated field as prose.\n\n    :Parameters:\n        x is not written as a list item\n    """\n')
 MODULE_SRC = {
     # a three module chain: __init__ star-imports Ma (no __all__), Ma imports the names from ma, __init__ re-exports them
     "alpha/__init__.py": '"""Alpha package."""\nfrom .Ma import *\n__all__ = ["A", "A2", "A3", "helper"]\ndef helper(x: int = 1) -> int:\n    "Help."\n    return x\n',
@@ -61,7 +64,8 @@ MODULE_SRC = {
     "beta/__init__.py": 'from alpha.ma import A\ndef bfun():\n    "b function"\n',
     "beta/sc/__init__.py": '"""Sub package."""\ndef scfun():\n    "sc function"\n',
     "beta/sc/md.py": '"""Module md."""\nfrom alpha.ma import A\nclass D(A):\n    "D."\n    x = 1\n    "x doc"\n',
-    "beta/me.py": '"""Module me."""\nimport alpha.ma\nclass E(alpha.ma.A):\n    "E extends L{alpha.ma.A}."\ndef f(a, b=(1, 2)):\n    "f."\n',
+    "beta/me.py": ('"""Module me."""\n__docformat__ = "restructuredtext"\nimport alpha.ma\nclass E(alpha.ma.A):\n    "E extends `alpha.ma.A`."\n'
+                   'def f(a, b=(1, 2)):\n    """f.\n\n    :Parameters:\n        a and b are described in prose\n    """\n'),
     "beta/README.txt": "data\n",
     # epytext sections whose titles have no Latin letter or digit (ids and table of contents)
     "gamma.py": '"""Gamma module.\n\n\u0420\u0430\u0437\u0434\u0435\u043b\n======\n\u03b1\u03b2\u03b3 text.\n\n'
@@ -91,6 +95,10 @@ SITES = [
       ("beta.me", "beta.me.E"), ("beta.sc.md", "beta.sc.md.D"), ("gamma", "gamma.G")]),
     # summary of the undocumented package beta: "1/1 function, 1/1 module, 1/1 package documented" - kinds sorted by their value
     # (epydoc2stan.format_undocumented); shown in moduleIndex.html
+    # a consolidated field that cannot be split is shown as a field of its own ("Unknown Field: Parameters"), in every
+    # build (restructuredtext._SplitFieldsTranslator._newfields belongs to one docstring)
+    ("newfield:alpha.Ma.cfield", "alpha.Ma", BOTH("list"), [("alpha.Ma", "1:Parameters")]),
+    ("newfield:beta.me.f", "beta.me", BOTH("list"), [("beta.me", "1:Parameters")]),
     ("undocumented-kinds:beta", "beta", BOTH("sorted"), [("beta.sc", "2:package"), ("beta.me", "1:module"), ("beta", "0:function")]),
     # sections of an epytext docstring whose titles have no Latin letter or digit, in document order (table of contents)
     ("sections:gamma", "gamma", BOTH("list"),
@@ -107,11 +115,11 @@ EPOCH = 1000000000
 # (member order, SOURCE_DATE_EPOCH, upto, pages all|summary, --sidebar-expand-depth=2, explore listing permutations,
 #  two --template-dir: footer.html / FOOTER.html in the first, header.html in both; sources through add-package in a
 #  configuration file)
-DEFAULT_VARIANT = ("alphabetical", EPOCH, 9, "all", False, True, False, False)
-VARIANTS = {"quick": [DEFAULT_VARIANT, ("source", 0, 1, "all", True, True, True, True),
+DEFAULT_VARIANT = ("alphabetical", EPOCH, 9, "all", False, True, False, True)
+VARIANTS = {"quick": [DEFAULT_VARIANT, ("source", 0, 1, "all", True, True, True, False),
                       ("alphabetical", EPOCH, 1, "summary", False, False, False, False)],
-            "thorough": [DEFAULT_VARIANT, ("source", 0, 1, "all", True, True, True, True), ("source", EPOCH, 1, "all", False, True, False, False),
-                         ("alphabetical", 0, 1, "all", True, True, False, True), ("alphabetical", EPOCH, 2, "summary", False, False, True, False)]}
+            "thorough": [DEFAULT_VARIANT, ("source", 0, 1, "all", True, True, True, False), ("source", EPOCH, 1, "all", False, True, False, False),
+                         ("alphabetical", 0, 1, "all", True, True, False, False), ("alphabetical", EPOCH, 2, "summary", False, False, True, False)]}
 FIXED_PAGES = {"index.html": [0, 0], "moduleIndex.html": [0, 1], "classIndex.html": [0, 2], "nameIndex.html": [0, 3],
                "undoccedSummary.html": [0, 4], "all-documents.html": [0, 5]}
 
@@ -360,8 +368,12 @@ def first_diff(a: Path, b: Path) -> Dict[str, str]:
     return {"ref": f"{len(la)} lines", "run": f"{len(lb)} lines"}
 
 
-SAMEPROC = ("import sys, json\nfrom pydoctor.driver import main\nfirst, args = json.loads(sys.argv[1])\n"
-            "main(first)\nsys.exit(main(args))\n")
+SAMEPROC = ("import sys, json, os\nfrom pydoctor.driver import main\nfirst, args, blocked = json.loads(sys.argv[1])\n"
+            "if blocked:\n    os.makedirs(blocked)          # a directory sits where a page goes: the first build aborts there\n"
+            "try:\n    main(first)\nexcept BaseException as e:\n    print('FIRST-BUILD-ENDED-WITH', type(e).__name__)\n"
+            "sys.exit(main(args))\n")
+# a page written late by the build of each root: blocking it aborts the build part-way through its pages
+ABORT_PAGE = {"alpha": "alpha.Ma.ZChild.html", "beta": "beta.sc.html", "gamma.py": "gamma.G.html"}
 _TABLE_ID = re.compile(rb"\bid\d+\b")
 _SIDEBAR_ID = re.compile(rb"expandableItemId\d+")
 class Runner:
@@ -389,7 +401,7 @@ class Runner:
 
     def run(self, src: Path, root_args: List[str], named: bool, seed: int, orders: Dict[str, List[str]], salt: int,
             out: Path, extra_args: Sequence[str] = (), var: Optional[Dict[str, Any]] = None,
-            sameproc: bool = False, other_root: Optional[str] = None) -> Dict[str, Any]:
+            sameproc: bool = False, other_root: Optional[str] = None, abort_first: bool = False) -> Dict[str, Any]:
         self.n += 1
         tag = out.name
         cfg = self.scratch / f"listing_{tag}.json"
@@ -415,11 +427,17 @@ class Runner:
         opts = (["--project-name", PROJECT_NAME] if named else []) + list(extra_args)
 
         def sources(roots: List[str], name: str) -> List[str]:
-            if not var.get("viacfg"):
+            ispkg = [(src / r).is_dir() for r in roots]
+            grouped = ispkg == sorted(ispkg) or ispkg == sorted(ispkg, reverse=True)
+            if not var.get("viacfg") or not grouped:      # package, module, package cannot be written with two keys
                 return roots
-            # the sources are named in a configuration file (add-package), nothing on the command line
+            # the sources are named in a configuration file, nothing on the command line: packages under add-package,
+            # modules under add-module, the key of the first root first
             ini = self.scratch / f"cfg_{tag}_{name}.ini"
-            ini.write_text("[pydoctor]\n" + "".join(f"add-package = {src / r}\n" for r in roots))
+            keys: Dict[str, List[str]] = {}
+            for r, pk in zip(roots, ispkg):
+                keys.setdefault("add-package" if pk else "add-module", []).append(str(src / r))
+            ini.write_text("[pydoctor]\n" + "".join(f"{k} =\n" + "".join(f"    {v}\n" for v in vs) for k, vs in keys.items()))
             return ["--config", str(ini)]
         args = ["--html-output", str(out)] + opts + sources(root_args, "main")
         cmd = [PY, "-m", "pydoctor"] + args
@@ -427,7 +445,8 @@ class Runner:
             # the run under observation is the SECOND pydoctor run of its process (what pydoctor.sphinx_ext does with two
             # configured projects): the first one builds ANOTHER project into a directory that is thrown away
             first = ["--html-output", str(warm)] + opts + sources([other_root or root_args[0]], "warm")
-            cmd = [PY, "-c", SAMEPROC, json.dumps([first, args])]
+            blocked = str(warm / ABORT_PAGE[other_root]) if abort_first and other_root in ABORT_PAGE else ""
+            cmd = [PY, "-c", SAMEPROC, json.dumps([first, args, blocked])]
         p = subprocess.run(cmd, cwd=str(src), env=env, capture_output=True, text=True, timeout=300)
         shutil.rmtree(warm, ignore_errors=True)
         for f in self.scratch.glob(f"cfg_{tag}_*.ini"):
@@ -438,6 +457,8 @@ class Runner:
             log.unlink()
         cfg.unlink()
         guesses = re.findall(r"Guessing '(.*)' for project name", p.stdout + p.stderr)      # the last run of the process
+        if sameproc and abort_first and "FIRST-BUILD-ENDED-WITH" not in p.stdout:
+            raise MachineryError(f"the first build of the process was meant to abort and did not: {(p.stdout + p.stderr)[-300:]}")
         return {"rc": p.returncode, "guess": guesses[-1] if guesses else None, "listings": listings,
                 "tail": (p.stdout + p.stderr)[-600:]}
 
@@ -496,6 +517,10 @@ def observed_sites(out: Path) -> Dict[str, Any]:
     f = out / ("gamma.html" if (out / "gamma.html").exists() and not (out / "gamma.html").is_symlink() else "index.html")
     if f.exists():
         obs["sections:gamma"] = re.findall(r'id="rst-toc-entry-\d+">([^<]+)<', f.read_text())
+    for site, page in (("newfield:alpha.Ma.cfield", "alpha.Ma.html"), ("newfield:beta.me.f", "beta.me.html")):
+        f = out / page
+        if f.exists():
+            obs[site] = ["Parameters"] if "Unknown Field: newfield" in f.read_text() else []
     sid = []
     for f in out.glob("*.html"):
         if not f.is_symlink():
@@ -629,7 +654,7 @@ def realise_enumeration(ctx: Ctx, runner: Runner, tree: Tree, uname: str, recs: 
         env = prepare(rec)
         out = outbase / f"ref_{pid}"
         o = runner.run(tree.src, env["root_args"], rec["named"], env["seed"], env["orders"], env["salt"], out, var=rec["var"])
-        if o["rc"] != 0 or not out.exists():
+        if o["rc"] not in (0, 2) or not out.exists():       # 2 = docstring syntax errors were reported, the pages are written
             raise MachineryError(f"reference pydoctor run failed rc={o['rc']}: {o['tail']}")
         refs[pid] = {"rec": rec, "env": env, "out": out, "digest": tree_digest(out), "obs": o}
 
@@ -689,11 +714,12 @@ def realise_enumeration(ctx: Ctx, runner: Runner, tree: Tree, uname: str, recs: 
         if rec["outdir"] == "reused":
             shutil.copytree(ref["out"], out, symlinks=True)
         o = runner.run(tree.src, env["root_args"], rec["named"], env["seed"], env["orders"], env["salt"], out, var=rec["var"],
-                       sameproc=rec["outdir"] == "sameproc", other_root=other_root(rec))
+                       sameproc=rec["outdir"] in ("sameproc", "afterabort"), other_root=other_root(rec),
+                       abort_first=rec["outdir"] == "afterabort")
         try:
             name_ref = ref["obs"]["guess"] or PROJECT_NAME
             name_out = o["guess"] or PROJECT_NAME
-            if o["rc"] != 0 or not out.exists():
+            if o["rc"] not in (0, 2) or not out.exists():
                 # the reference environment produced a tree, this environment did not: the output depends on it
                 diff = {"differing_files": [], "n_differing": -1, "same_file_set": False, "observed_projname": [name_ref, name_out],
                         "residual_after_projname_normalisation": ["<run failed>"], "failure": {"rc": o["rc"], "tail": o["tail"]}}
@@ -973,7 +999,8 @@ def replay(ctx: Ctx, path: str) -> int:
                            var={"order": pr.get("member_order", "alphabetical"), "epochset": True,
                                 "epoch": pr.get("source_date_epoch", EPOCH), "pages": pr.get("pages", "all"),
                                 "expand": pr.get("sidebar_expand", False), "tpl": pr.get("template_dir", False), "viacfg": pr.get("via_config_file", False)},
-                           sameproc=e.get("outdir") == "sameproc", other_root=pr.get("built_before_in_the_process"))
+                           sameproc=e.get("outdir") in ("sameproc", "afterabort"), other_root=pr.get("built_before_in_the_process"),
+                           abort_first=e.get("outdir") == "afterabort")
             outs.append((out, o))
         diff = compare_with_ref(outs[0][0], tree_digest(outs[0][0]), outs[1][0], outs[0][1]["guess"] or PROJECT_NAME,
                                 outs[1][1]["guess"] or PROJECT_NAME)
